@@ -52,7 +52,7 @@ ASSUMPTIONS = ['the in-line FFI is the reference for "what the cdef means"',
 BUDGET = {'quick': 32, 'thorough': 2400}
 BATCH = {'quick': 24, 'thorough': 24}
 MIN_PER_SHARD = 2
-TIME = {'quick': 25, 'thorough': 800}
+TIME = {'quick': 15, 'thorough': 800}
 
 FEATURES = cdefgen.DEFAULT_FEATURES | frozenset(['anon', 'anon_td', 'file', 'gvar_any', 'variadic'])
 
@@ -130,6 +130,8 @@ def _facts(spec, whole=None):
                 has_bf = True
             if d['tag'] and d['tdname']:
                 forced.setdefault((d['kw'], d['tag']), d['tdname'])
+        if d['k'] == 'enum' and d['tag'] and d.get('tdname'):
+            forced.setdefault(('enum', d['tag']), d['tdname'])
         if d['k'] == 'typedef' and d['type'][0] == 'agg':
             forced.setdefault((d['type'][1], d['type'][2]), d['name'])
     enum_globals = []
